@@ -163,6 +163,7 @@ let run_case (f : string array) : string =
   | _ -> (match Driver_fp.run_case f with Some r -> r | None -> Driver2.run_case f)
 
 exception Model_timeout
+let n_timeouts = ref 0
 
 let () =
   Sys.set_signal Sys.sigalrm (Sys.Signal_handle (fun _ -> raise Model_timeout));
@@ -176,14 +177,17 @@ let () =
        if line = "" || line.[0] = '#' then Buffer.add_string out "\n"
        else begin
          let f = Array.of_list (List.filter (fun s -> s <> "") (String.split_on_char ' ' line)) in
-         (* a runaway evaluation (only seen on broken tables) is cut after 20 s *)
-         ignore (Unix.alarm 20);
-         let r = (try (let r = (if Array.length Sys.argv > 1 && Sys.argv.(1) = "--spec" then Driver2.spec_case f else run_case f) in
+         (* a runaway evaluation (only seen on broken tables) is cut after 20 s; once that has happened
+            the limit drops to 2 s, and after 25 such cases the rest of the shard is not evaluated
+            (broken tables would otherwise keep the check busy for hours) *)
+         let r = if !n_timeouts >= 25 then "abn # model timeout (not evaluated after 25 cases that did not finish)" else begin
+         ignore (Unix.alarm (if !n_timeouts > 0 then 2 else 20));
+         (try (let r = (if Array.length Sys.argv > 1 && Sys.argv.(1) = "--spec" then Driver2.spec_case f else run_case f) in
                        ignore (Unix.alarm 0); r) with
-             | Model_timeout -> "abn # model timeout"
+             | Model_timeout -> incr n_timeouts; "abn # model timeout"
              | Failure m -> "DRIVER-ERROR " ^ m
              | Stack_overflow -> "DRIVER-ERROR stack overflow"
-             | Not_found -> "DRIVER-ERROR not found") in
+             | Not_found -> "DRIVER-ERROR not found") end in
          Buffer.add_string out r; Buffer.add_char out '\n'
        end;
        if Buffer.length out > 60000 then (print_string (Buffer.contents out); Buffer.clear out)
